@@ -37,7 +37,7 @@ use midnight_proofs::{
 use serde_json::json;
 use vcore::{catch, CaseOut, Viol};
 
-use crate::{run_once, val::hex, viol_key, Judgement, Outcome, Runnable, F};
+use crate::{run_once, val::hex, Judgement, Outcome, Runnable, F};
 
 #[derive(Clone, Debug)]
 pub struct Cfg {
@@ -176,6 +176,40 @@ fn limbs_of(v: &F) -> [u64; 4] {
     l
 }
 
+/// What the search needs from a circuit under test; implemented for every `Runnable` through
+/// [`Of`], and by checks that drive circuits with their own runner.
+pub trait Subject {
+    fn s_key(&self) -> String;
+    fn s_op(&self) -> String;
+    /// one honest synthesis with the assignment trace on
+    fn s_traced(&self, k: u32) -> Option<(MockProver<F>, Vec<String>, Vec<TraceEntry>)>;
+    /// one synthesis under a tamper plan: (outcome, exposed inputs, exposed outputs)
+    fn s_replay(&self, k: u32, plan: Vec<(u64, Fault, Mode)>) -> (Outcome, Vec<Vec<F>>, Vec<Vec<F>>);
+    fn s_judge(&self, ins: &[Vec<F>], outs: &[Vec<F>]) -> Judgement;
+}
+
+/// Adapter: any `Runnable` as a search subject.
+pub struct Of<'a, C: Runnable>(pub &'a C);
+
+impl<'a, C: Runnable> Subject for Of<'a, C> {
+    fn s_key(&self) -> String {
+        self.0.r_key()
+    }
+    fn s_op(&self) -> String {
+        self.0.r_op()
+    }
+    fn s_traced(&self, k: u32) -> Option<(MockProver<F>, Vec<String>, Vec<TraceEntry>)> {
+        traced_run(self.0, k)
+    }
+    fn s_replay(&self, k: u32, plan: Vec<(u64, Fault, Mode)>) -> (Outcome, Vec<Vec<F>>, Vec<Vec<F>>) {
+        let r = run_once(self.0, k, plan, false);
+        (r.outcome, r.ins, r.outs)
+    }
+    fn s_judge(&self, ins: &[Vec<F>], outs: &[Vec<F>]) -> Judgement {
+        self.0.r_judge(ins, outs)
+    }
+}
+
 /// One honest synthesis with tracing; returns the run (prover kept) and the trace.
 fn traced_run<C: Runnable>(case: &C, k: u32) -> Option<(MockProver<F>, Vec<String>, Vec<TraceEntry>)> {
     crate::EXPO.with(|e| *e.borrow_mut() = crate::ExpoLog::default());
@@ -193,7 +227,11 @@ fn traced_run<C: Runnable>(case: &C, k: u32) -> Option<(MockProver<F>, Vec<Strin
 
 /// Regions of a traced honest run: (region index, name, number of tamperable assignments).
 pub fn regions_of<C: Runnable>(case: &C, k: u32) -> Option<Vec<(u32, String, usize)>> {
-    let (_, names, trace) = traced_run(case, k)?;
+    regions_of_subject(&Of(case), k)
+}
+
+pub fn regions_of_subject<S: Subject>(case: &S, k: u32) -> Option<Vec<(u32, String, usize)>> {
+    let (_, names, trace) = case.s_traced(k)?;
     let mut cnt: HashMap<u32, usize> = HashMap::new();
     for t in &trace {
         *cnt.entry(t.region).or_default() += 1;
@@ -205,8 +243,13 @@ pub fn regions_of<C: Runnable>(case: &C, k: u32) -> Option<Vec<(u32, String, usi
 
 /// Explores the listed regions (indices into the trace's region list) of `case`.
 pub fn explore<C: Runnable>(case: &C, k: u32, region_ids: &[u32], cfg: &Cfg, out: &mut CaseOut) -> Stats {
+    explore_subject(&Of(case), k, region_ids, cfg, out)
+}
+
+/// As [`explore`], for any [`Subject`].
+pub fn explore_subject<S: Subject>(case: &S, k: u32, region_ids: &[u32], cfg: &Cfg, out: &mut CaseOut) -> Stats {
     let mut st = Stats::default();
-    let Some((prover, names, trace)) = traced_run(case, k) else {
+    let Some((prover, names, trace)) = case.s_traced(k) else {
         out.eval("laws:no-honest-circuit", false);
         return st;
     };
@@ -677,22 +720,22 @@ pub fn explore<C: Runnable>(case: &C, k: u32, region_ids: &[u32], cfg: &Cfg, out
                 continue;
             }
             st.real_runs += 1;
-            let run = run_once(case, k, plan, false);
-            out.eval(&format!("laws:replay:{}", run.outcome.name()), true);
-            if run.outcome == Outcome::Sat {
-                match case.r_judge(&run.ins, &run.outs) {
+            let (outcome, r_ins, r_outs) = case.s_replay(k, plan);
+            out.eval(&format!("laws:replay:{}", outcome.name()), true);
+            if outcome == Outcome::Sat {
+                match case.s_judge(&r_ins, &r_outs) {
                     Judgement::Holds => out.count("laws:replay:accepted-benign", 1),
                     Judgement::Wrong(w) => {
                         let mut desc: Vec<String> = changed.iter().map(|((c, r), v)| format!("advice[{c}][{r}] := {}", hex(v))).collect();
                         desc.sort();
                         out.viol(Viol::new(
-                            viol_key(case, "unsound-under-coordinated-region-alternative"),
+                            format!("{}:unsound-under-coordinated-region-alternative", case.s_op()),
                             format!(
                                 "region #{rid} ({rname}): {} cells replaced by a lookup-consistent alternative ({}), witness generation continued from them: circuit still satisfied although {w}",
                                 changed.len(),
                                 desc.join(", ")
                             ),
-                            json!({"case": case.r_key(), "region": rid, "region_name": rname, "cells": desc}),
+                            json!({"case": case.s_key(), "region": rid, "region_name": rname, "cells": desc}),
                         ));
                     }
                 }
